@@ -115,6 +115,7 @@ type exec struct {
 	meters  []stypes.GasMeter
 	writers []*failWriter
 	expTrace [][]traceLine
+	tctx     map[int]stypes.TraceContext // trace node -> the live context map it was built with
 	iters   map[int]*iterState
 	log     []string
 	step    int
@@ -127,6 +128,30 @@ type traceLine struct {
 	Operation string `json:"operation"`
 	Key       string `json:"key"`
 	Value     string `json:"value"`
+	Meta      string `json:"-"` // the line's metadata object, printed with sorted keys
+}
+
+type traceLineJSON struct {
+	Operation string                 `json:"operation"`
+	Key       string                 `json:"key"`
+	Value     string                 `json:"value"`
+	Metadata  map[string]interface{} `json:"metadata"`
+}
+
+// metaOf: what the metadata of a line written now by trace node n looks like once decoded.
+func (e *exec) metaOf(n int) string {
+	if e.tctx == nil || e.tctx[n] == nil {
+		return fmt.Sprint(map[string]interface{}(nil))
+	}
+	m := map[string]interface{}{}
+	for k, v := range e.tctx[n] {
+		if i, ok := v.(int); ok {
+			m[k] = float64(i)
+		} else {
+			m[k] = v
+		}
+	}
+	return fmt.Sprint(m)
 }
 
 func (e *exec) viol(prop, oracle string, attrs map[string]string, f string, a ...interface{}) {
@@ -227,7 +252,15 @@ func (e *exec) build() error {
 		case "trace":
 			w := &failWriter{failAt: nd.FailWrite}
 			e.writers[i] = w
-			e.real[i] = tracekv.NewStore(e.real[nd.Parent], w, nil)
+			var tc stypes.TraceContext
+			if nd.TraceCtx {
+				if e.tctx == nil {
+					e.tctx = map[int]stypes.TraceContext{}
+				}
+				tc = stypes.TraceContext(map[string]interface{}{"blockHeight": 0, "store": "s"})
+				e.tctx[i] = tc
+			}
+			e.real[i] = tracekv.NewStore(e.real[nd.Parent], w, tc)
 			e.model[i] = &mPass{parent: e.model[nd.Parent]}
 		case "multi":
 			if nd.Parent >= 0 {
@@ -388,8 +421,10 @@ func (e *exec) finish() {
 		var got []traceLine
 		dec := json.NewDecoder(bytes.NewReader(w.buf.Bytes()))
 		for {
-			var tl traceLine
-			if err := dec.Decode(&tl); err != nil {
+			var tj traceLineJSON
+			err := dec.Decode(&tj)
+			tl := traceLine{tj.Operation, tj.Key, tj.Value, fmt.Sprint(tj.Metadata)}
+			if err != nil {
 				if err != io.EOF {
 					e.viol("C16", "trace-undecodable", map[string]string{"stack": e.stackOf(i)}, "trace output cannot be decoded: %v", err)
 				}
@@ -477,6 +512,52 @@ func (e *exec) do(op *Op) {
 		e.stop = true
 	}
 	_ = attrs
+	switch op.K {
+	case "tctx":
+		// the owner of the tracing context moves on (a new block, a new transaction): later lines carry the new values
+		if tc := e.tctx[op.N]; tc != nil {
+			tc["blockHeight"] = tc["blockHeight"].(int) + 1
+			if tc["blockHeight"].(int)%2 == 0 {
+				tc["txHash"] = fmt.Sprintf("%04X", tc["blockHeight"].(int)*7919)
+			}
+			st.C("trace_context_updates", 1)
+		}
+		return
+	case "consume":
+		// a charge made on the meter directly (what baseapp does for the block gas): same ledger, same rules
+		led, gn := e.gasFor(op.N)
+		if led == nil || led.dead != "" || e.tr.Nodes[op.N].Kind != "gas" {
+			return
+		}
+		exp := led.consume(op.Amount)
+		got := ""
+		func() {
+			defer func() {
+				if r := recover(); r != nil {
+					got = classify(r)
+				}
+			}()
+			e.meters[gn].ConsumeGas(op.Amount, "direct")
+		}()
+		e.log = append(e.log, fmt.Sprintf("consume n%d %d p=%s", op.N, op.Amount, got))
+		if got != exp {
+			oracle := "panic-vs-model"
+			if exp == "oog" || got == "oog" {
+				oracle = "out-of-gas-position"
+			}
+			e.viol("C16", oracle, map[string]string{"op": "consume", "stack": e.stackOf(op.N), "expected": short(exp), "got": short(got)},
+				"a direct charge of %d on %s: expected panic %q, got %q (ledger: %v)", op.Amount, e.stackOf(op.N), exp, got, ledgerStr(led))
+			e.stop = true
+			return
+		}
+		if exp == "overflow" {
+			st.Probe("gas_overflow_reported")
+			st.Probe("gas_overflow_reported_direct_charge")
+			return
+		}
+		e.checkGas(op.N)
+		return
+	}
 	nd := e.tr.Nodes[op.N]
 	led, _ := e.gasFor(op.N)
 	if led != nil && led.dead != "" {
@@ -560,7 +641,7 @@ func (e *exec) do(op *Op) {
 				}
 			}
 			if isTrace && exp.panicked == "" {
-				if traceWrite(traceLine{"read", b64(key), b64(mv)}) {
+				if traceWrite(traceLine{"read", b64(key), b64(mv), e.metaOf(op.N)}) {
 					exp.panicked = "trace"
 				}
 			}
@@ -585,7 +666,7 @@ func (e *exec) do(op *Op) {
 				}
 			}
 			if isTrace && exp.panicked == "" {
-				if traceWrite(traceLine{"write", b64(key), b64(val)}) {
+				if traceWrite(traceLine{"write", b64(key), b64(val), e.metaOf(op.N)}) {
 					exp.panicked, apply = "trace", false
 				}
 			}
@@ -601,7 +682,7 @@ func (e *exec) do(op *Op) {
 				}
 			}
 			if isTrace && exp.panicked == "" {
-				if traceWrite(traceLine{"delete", b64(key), b64(nil)}) {
+				if traceWrite(traceLine{"delete", b64(key), b64(nil), e.metaOf(op.N)}) {
 					exp.panicked, apply = "trace", false
 				}
 			}
@@ -1028,9 +1109,9 @@ func (e *exec) iterOp(op *Op, prop string) {
 		}
 		if isTrace {
 			if op.K == "ikey" {
-				e.expTrace[n] = append(e.expTrace[n], traceLine{"iterKey", base64.StdEncoding.EncodeToString(b), ""})
+				e.expTrace[n] = append(e.expTrace[n], traceLine{"iterKey", base64.StdEncoding.EncodeToString(b), "", e.metaOf(n)})
 			} else {
-				e.expTrace[n] = append(e.expTrace[n], traceLine{"iterValue", "", base64.StdEncoding.EncodeToString(b)})
+				e.expTrace[n] = append(e.expTrace[n], traceLine{"iterValue", "", base64.StdEncoding.EncodeToString(b), e.metaOf(n)})
 			}
 		}
 		if !it.weak {
